@@ -6,6 +6,7 @@ import (
 	"crypto/rand"
 	"crypto/x509"
 	"crypto/x509/pkix"
+	"fmt"
 	"math/big"
 	"sync"
 	"time"
@@ -50,6 +51,9 @@ func Certs(intermediates int) *CertChain {
 			t.KeyUsage |= x509.KeyUsageCertSign
 		} else {
 			t.DNSNames = []string{"localhost"}
+			for i := 0; i < 16; i++ { // names by which simultaneous dials are told apart (see quicworld.RunDialsSimultaneous)
+				t.DNSNames = append(t.DNSNames, fmt.Sprintf("c%d.test", i))
+			}
 			t.ExtKeyUsage = []x509.ExtKeyUsage{x509.ExtKeyUsageServerAuth}
 		}
 		if pad > 0 {
